@@ -229,11 +229,18 @@ def facts_dir(tier="quick", log=None):
                         failed.append((tu, cfgname, err))
                     if dt > 0:
                         nrun += 1
+            complex_failed = [(tu, err[-600:]) for tu, cfgname, err in failed if cfgname == "complex"]
+            failed = [x for x in failed if x[1] != "complex"]
             if failed:
                 shutil.rmtree(out, ignore_errors=True)
                 raise RuntimeError("extraction failed for %d units: %s" % (len(failed), failed[:2]))
+            if complex_failed:
+                # the pinned (real) configuration parses, the complex-matrix-element configuration does not:
+                # analyse what the pinned build covers and report the other configuration as not analysable
+                index.pop("complex", None)
             info = {"key": key, "repo": REPO, "lib_tus": len(lib), "test_tus": len(tests) if want_tests else 0,
-                    "tests": want_tests, "configs": ["real", "complex"], "extract_s": round(time.time() - t0, 1),
+                    "tests": want_tests, "configs": sorted(index.keys(), reverse=True), "complex_failed": [c[0] for c in complex_failed],
+                    "complex_error": complex_failed[0][1] if complex_failed else "", "extract_s": round(time.time() - t0, 1),
                     "cached": False, "extracted_units": nrun, "index": index, "flags": lib[0]["command"].split(" -o ")[0] if lib else ""}
             json.dump(info, open(marker, "w"))
             _prune_cache(key)
